@@ -16,6 +16,7 @@ class Z3Env:
     def __init__(self, ctx):
         self.ctx = ctx
         self.vars = {}
+        self.ints = {}
         self.defs_done = set()
         self.side = []       # defining constraints already emitted (z3 BoolRefs)
         self.uphasors = {}   # symbolic phase K -> (c, s) unit circle pair (only for raw rendering)
@@ -23,7 +24,14 @@ class Z3Env:
     def var(self, name):
         v = self.vars.get(name)
         if v is None:
-            v = z3.Real(name)
+            info = self.ctx.info.get(name) or {}
+            if info.get('integer'):
+                # integer-valued atoms (floor/ceil/trunc/round results, integer parameters) are genuine Int constants
+                iv = z3.Int(name)
+                self.ints[name] = iv
+                v = z3.ToReal(iv)
+            else:
+                v = z3.Real(name)
             self.vars[name] = v
             self._constrain(name, v)
         return v
@@ -50,7 +58,7 @@ class Z3Env:
             self.side.append(v > _rv(info['gt']))
         if info.get('lt') is not None:
             self.side.append(v < _rv(info['lt']))
-        if info.get('integer'):
+        if info.get('integer') and name not in self.ints:
             self.side.append(z3.IsInt(v))
         if name in ctx.derived_def:
             kind, payload = ctx.derived_def[name]
@@ -203,13 +211,15 @@ def model_env(ctx, env, model):
     for name, v in env.vars.items():
         if name in ctx.derived_def or name == 'pi':
             continue
-        mv = model.eval(v, model_completion=True)
+        mv = model.eval(env.ints.get(name, v), model_completion=True)
         out[name] = _z3num(mv)
     return out
 
 
 def _z3num(mv):
     try:
+        if z3.is_int_value(mv):
+            return float(mv.as_long())
         if z3.is_rational_value(mv):
             return float(Fraction(mv.numerator_as_long(), mv.denominator_as_long()))
         if z3.is_algebraic_value(mv):
